@@ -152,7 +152,6 @@ Fixpoint wf_cols (m : nat) (prev : seq nat) (cs : seq column) : bool :=
     let nnew := size ids - size shared in
     (ids == shared ++ iota m nnew) && wf_cols (m + nnew) ids cs'
   else true.
-Definition nreads (cs : seq column) : nat := foldr maxn 0 [seq r.+1 | c <- cs, r <- col_ids c].
 Definition wf (I : inst) : bool :=
   [&& ped_ok (i_ped I), wf_cols 0 [::] (i_cols I)
     & all (fun c => all (fun e => e_src e < p_nind (i_ped I)) (c_entries c)) (i_cols I)].
@@ -326,8 +325,9 @@ Definition fcol (cc : cctx) (first last : bool) (prevF B : seq bool -> nat -> F)
   let norm := fsum [seq fsum [seq M i a | a <- iota 0 na] | i <- ts] in
   let lik := [seq [seq fdiv (fsum [seq fsum [seq M i a | a <- iota 0 na & genof i a ind == g] | i <- ts]) norm
                   | g <- iota 0 3] | ind <- iota 0 (p_nind P)] in
+  (* forward projection: sum over the allele assignments factored as sumprev * L *)
   let newF := memo (cc_fw cc) tn (fun sigma i =>
-     fsum [seq fsum [seq fprob x i a | a <- iota 0 na] | x <- xs & mask (cc_fmask cc) x == sigma]) in
+     fsum [seq fmul (sumprev x i) (cc_L cc x i) | x <- xs & mask (cc_fmask cc) x == sigma]) in
   (newF, lik, feq0 norm).
 
 Record fstate := FState {
@@ -368,78 +368,111 @@ Definition fb_likelihood (I : inst) (c ind g : nat) : F :=
   if fb_run I is Some out then nth f0 (nth [::] (nth [::] out c) ind) g else f0.
 
 (* ---------------------------------------------------------------- specification side *)
-(* local factors without memoisation *)
-Definition Wspec (P : ped) (c : column) (x : seq bool) (i a : nat) : F :=
-  fmul (cost P (h2p P) c i x a) (paa_raw P (geno P) (gcount P) c i a).
+(* a column as the hidden Markov model sees it: the ids of the active reads, the local factor
+   W x i a (emission of the column's entries under the bipartition x of its reads * allele-assignment
+   factor) and the transmission transition T j i into this column *)
+Record scol := SCol { s_ids : seq nat; s_W : seq bool -> nat -> nat -> F; s_T : nat -> nat -> F }.
+
+Section Spec.
+Variables (tn na : nat) (genof : nat -> nat -> nat -> nat).
+
+Definition nreads (cs : seq scol) : nat := foldr maxn 0 [seq r.+1 | c <- cs, r <- s_ids c].
+Definition hmm_states : seq (nat * nat) := [seq (i, a) | i <- iota 0 tn, a <- iota 0 na].
 
 (* weight of a complete assignment of the hidden variables: beta = one bit per read (global
    bipartition), path = one (transmission value, allele assignment) per column *)
-Fixpoint path_weight (P : ped) (prev : option nat) (cs : seq column) (beta : seq bool)
-                     (path : seq (nat * nat)) : F :=
+Fixpoint path_weight (prev : option nat) (cs : seq scol) (beta : seq bool) (path : seq (nat * nat)) : F :=
   match cs, path with
   | c :: cs', ia :: path' =>
-      fmul (fmul (if prev is Some j then ttrans_raw P c j ia.1 else f1)
-                 (Wspec P c (pickb (col_ids c) beta) ia.1 ia.2))
-           (path_weight P (Some ia.1) cs' beta path')
+      fmul (fmul (if prev is Some j then s_T c j ia.1 else f1) (s_W c (pickb (s_ids c) beta) ia.1 ia.2))
+           (path_weight (Some ia.1) cs' beta path')
   | _, _ => f1
   end.
 
-Definition hmm_states (P : ped) : seq (nat * nat) :=
-  [seq (i, a) | i <- iota 0 (ntrans P), a <- iota 0 (nassign P)].
-
+(* every complete (transmission, allele-assignment) path with its weight summed over all global
+   bipartitions *)
+Definition weighted_paths (cs : seq scol) : seq (seq (nat * nat) * F) :=
+  [seq (path, fsum [seq path_weight None cs beta path | beta <- bitvecs (nreads cs)])
+  | path <- seqs hmm_states (size cs)].
 (* joint mass of "individual ind has genotype g at column c" and the total mass: plain sums over all
    (bipartition, transmission path, allele-assignment path) *)
-Definition joint_mass (I : inst) (c ind g : nat) : F :=
-  let P := i_ped I in
-  fsum [seq fsum [seq if geno P (nth (0, 0) path c).1 (nth (0, 0) path c).2 ind == g
-                      then path_weight P None (i_cols I) beta path else f0
-                 | path <- seqs (hmm_states P) (size (i_cols I))]
-       | beta <- bitvecs (nreads (i_cols I))].
-Definition total_mass (I : inst) : F :=
-  let P := i_ped I in
-  fsum [seq fsum [seq path_weight P None (i_cols I) beta path
-                 | path <- seqs (hmm_states P) (size (i_cols I))]
-       | beta <- bitvecs (nreads (i_cols I))].
-Definition posterior_spec (I : inst) (c ind g : nat) : F := fdiv (joint_mass I c ind g) (total_mass I).
+Definition joint_mass (wp : seq (seq (nat * nat) * F)) (c ind g : nat) : F :=
+  fsum [seq if genof (nth (0, 0) pw.1 c).1 (nth (0, 0) pw.1 c).2 ind == g then pw.2 else f0 | pw <- wp].
+Definition total_mass (wp : seq (seq (nat * nat) * F)) : F := fsum [seq pw.2 | pw <- wp].
+Definition posterior_gen (cs : seq scol) : nat -> nat -> nat -> F :=
+  let wp := weighted_paths cs in
+  let tot := total_mass wp in
+  fun c ind g => fdiv (joint_mass wp c ind g) tot.
 
-(* the same posterior with the chain over (transmission, assignment) summed by its own
-   forward-backward recursion for each fixed global bipartition (no projections, no scaling);
-   equal to posterior_spec (proved), used where the plain sum is too large to evaluate *)
+(* the same posterior with the chain over (transmission, assignment) summed by its own forward and
+   backward recursion for each fixed global bipartition (no projections, no scaling); equal to
+   posterior_gen (proved), used where the plain sum is too large to evaluate *)
 Section Chain.
-Variable P : ped.
 Variable beta : seq bool.
-Let tn := ntrans P.
-Let na := nassign P.
-Definition Lspec (c : column) (i : nat) : F :=
-  fsum [seq Wspec P c (pickb (col_ids c) beta) i a | a <- iota 0 na].
-(* forward: mass of all paths through the prefix ending with transmission value i *)
-Fixpoint chain_fwd (rprefix : seq column) (i : nat) : F :=
-  match rprefix with
-  | [::] => f1
-  | c :: [::] => Lspec c i
-  | c :: rp => fmul (Lspec c i) (fsum [seq fmul (chain_fwd rp j) (ttrans_raw P c j i) | j <- iota 0 tn])
-  end.
-(* mass entering column c with value i, before the local factor of c: rprefix = reversed columns before c *)
-Definition chain_in (rprefix : seq column) (c : column) (i : nat) : F :=
-  if rprefix is _ :: _ then fsum [seq fmul (chain_fwd rprefix j) (ttrans_raw P c j i) | j <- iota 0 tn]
-  else f1.
-Fixpoint chain_bwd (suffix : seq column) (j : nat) : F :=
+Definition Lspec (c : scol) (i : nat) : F := fsum [seq s_W c (pickb (s_ids c) beta) i a | a <- iota 0 na].
+(* rprefix = reversed list of the columns up to some column; entry i = mass of all paths through them
+   that end with transmission value i *)
+Fixpoint chain_fwd (rprefix : seq scol) : seq F :=
+  if rprefix is c :: rp then
+    let prev := chain_fwd rp in
+    [seq fmul (Lspec c i)
+              (if rp is [::] then f1 else fsum [seq fmul (nth f0 prev j) (s_T c j i) | j <- iota 0 tn])
+    | i <- iota 0 tn]
+  else nseq tn f1.
+(* mass entering column c with value i (before the local factor of c) *)
+Definition chain_in (rprefix : seq scol) (c : scol) : seq F :=
+  if rprefix is _ :: _ then
+    let prev := chain_fwd rprefix in
+    [seq fsum [seq fmul (nth f0 prev j) (s_T c j i) | j <- iota 0 tn] | i <- iota 0 tn]
+  else nseq tn f1.
+(* entry j = mass of all paths through the suffix given the value j in the column before it *)
+Fixpoint chain_bwd (suffix : seq scol) : seq F :=
   if suffix is c :: cs then
-    fsum [seq fmul (fmul (ttrans_raw P c j i) (Lspec c i)) (chain_bwd cs i) | i <- iota 0 tn]
-  else f1.
+    let nxt := chain_bwd cs in
+    let ln := [seq fmul (Lspec c i) (nth f0 nxt i) | i <- iota 0 tn] in
+    [seq fsum [seq fmul (s_T c j i) (nth f0 ln i) | i <- iota 0 tn] | j <- iota 0 tn]
+  else nseq tn f1.
 End Chain.
 
-Definition chain_mass (I : inst) (c ind : nat) (g : option nat) : F :=
+(* mass of (transmission value i, allele assignment a) at column c, summed over everything else *)
+Definition chain_M (cs : seq scol) (c : nat) : nat -> nat -> F :=
+  let col := nth (SCol [::] (fun _ _ _ => f0) (fun _ _ => f0)) cs c in
+  let per_beta := [seq (pickb (s_ids col) beta,
+                        [seq fmul fb.1 fb.2 | fb <- zip (chain_in beta (rev (take c cs)) col)
+                                                        (chain_bwd beta (drop c.+1 cs))])
+                  | beta <- bitvecs (nreads cs)] in
+  memo_nat2 tn na (fun i a => fsum [seq fmul (nth f0 xb.2 i) (s_W col xb.1 i a) | xb <- per_beta]).
+Definition posterior_chain_gen (cs : seq scol) : nat -> nat -> nat -> F :=
+  let Ms := [seq chain_M cs c | c <- iota 0 (size cs)] in
+  fun c ind g =>
+    let M := nth (fun _ _ => f0) Ms c in
+    fdiv (fsum [seq fsum [seq M i a | a <- iota 0 na & genof i a ind == g] | i <- iota 0 tn])
+         (fsum [seq fsum [seq M i a | a <- iota 0 na] | i <- iota 0 tn]).
+End Spec.
+
+(* the hidden Markov model of an instance: local factors without memoisation *)
+Definition Wspec (P : ped) (c : column) (x : seq bool) (i a : nat) : F :=
+  fmul (cost P (h2p P) c i x a) (paa_raw P (geno P) (gcount P) c i a).
+Definition spec_cols (I : inst) : seq scol :=
+  [seq SCol (col_ids c) (Wspec (i_ped I) c) (ttrans_raw (i_ped I) c) | c <- i_cols I].
+Definition posterior_spec (I : inst) (c ind g : nat) : F :=
+  posterior_gen (ntrans (i_ped I)) (nassign (i_ped I)) (geno (i_ped I)) (spec_cols I) c ind g.
+
+(* the same with the memoised local factors of the executable model (proved equal for well-formed
+   instances); these are the versions the correspondence check evaluates *)
+Definition memo_cols (I : inst) : seq scol :=
   let P := i_ped I in
-  let cs := i_cols I in
-  let col := nth (Column [::] [::] f0) cs c in
-  fsum [seq fsum [seq fmul (fmul (chain_in P beta (rev (take c cs)) col i)
-                                 (fsum [seq Wspec P col (pickb (col_ids col) beta) i a
-                                       | a <- iota 0 (nassign P) & if g is Some g' then geno P i a ind == g' else true]))
-                           (chain_bwd P beta (drop c.+1 cs) i)
-                 | i <- iota 0 (ntrans P)]
-       | beta <- bitvecs (nreads cs)].
-Definition posterior_chain (I : inst) (c ind g : nat) : F :=
-  fdiv (chain_mass I c ind (Some g)) (chain_mass I c ind None).
+  let ccs := mk_cctxs P (h2p_memo P) (geno_memo P) (gcount_memo P) [::] (i_cols I) in
+  [seq SCol (col_ids cc.1) (cc_W cc.2) (cc_T cc.2) | cc <- zip (i_cols I) ccs].
+Definition posterior_spec_memo (I : inst) : nat -> nat -> nat -> F :=
+  let P := i_ped I in
+  let cs := memo_cols I in
+  let gm := geno_memo P in
+  posterior_gen (ntrans P) (nassign P) gm cs.
+Definition posterior_chain_memo (I : inst) : nat -> nat -> nat -> F :=
+  let P := i_ped I in
+  let cs := memo_cols I in
+  let gm := geno_memo P in
+  posterior_chain_gen (ntrans P) (nassign P) gm cs.
 
 End Numbers.
